@@ -15,7 +15,7 @@ MUTANTS = [
     m("c19-seed-inplace-via-identity", "R1", "        return self.square_matrix @ other + (\n            self._sign\n            * self.left_factor_matrix\n            @ (self.inner_square_matrix @ (self.right_factor_matrix @ other))\n        )", "        result = self.square_matrix @ other\n        result += (\n            self._sign\n            * self.left_factor_matrix\n            @ (self.inner_square_matrix @ (self.right_factor_matrix @ other))\n        )\n        return result"),
     m("c19-nonslot-store", "R1", "    @property\n    def log_abs_det(self) -> float:\n        lu, piv = self.lu_and_piv\n        return np.log(np.abs(lu.diagonal())).sum()", "    @property\n    def log_abs_det(self) -> float:\n        lu, piv = self.lu_and_piv\n        self._last_lu = lu\n        return np.log(np.abs(lu.diagonal())).sum()"),
     m("c19-slot-overwritten-unguarded", "R1", "        if self._inv is None:\n            self._inv = self._construct_inv()\n        return self._inv", "        self._inv = self._construct_inv()\n        return self._inv"),
-    m("c19-fill-diagonal-on-attr", "R1", "        den_j_mtx = self.unreg_eigval[:, None] - self.unreg_eigval[None, :]\n        np.fill_diagonal(den_j_mtx, 1)", "        den_j_mtx = self.unreg_eigval\n        np.fill_diagonal(den_j_mtx, 1)"),
+    m("c19-fill-diagonal-on-attr", "R1", "        den_j_mtx = self.unreg_eigval[:, None] - self.unreg_eigval[None, :]\n", "        den_j_mtx = self.unreg_eigval\n        np.fill_diagonal(den_j_mtx, 1)\n"),
     m("c19-diag-unfrozen", "R2", "        super().__init__((diagonal.size, diagonal.size), _diagonal=diagonal)", "        super().__init__((diagonal.size, diagonal.size))\n        self._diagonal = diagonal"),
     m("c19-undo-freeze-inv-array", "R2", "        super().__init__(inv_array.shape, _inv_array=inv_array)", "        super().__init__(inv_array.shape)\n        self._inv_array = inv_array"),
     m("c19-freezing-line-removed", "R2", "            if isinstance(v, np.ndarray):\n                v.flags.writeable = False\n", ""),
